@@ -36,5 +36,7 @@ for fq, node in sorted(funcs.items()):
                     rec(c)
         rec(fn)
     nested(node, fq)
+# every top-level binding by def / class per module (N27 tells moved and new definitions from the reviewed ones)
+inv["toplevel"] = {m: sorted(n.name for n in t.body if isinstance(n, (ast.FunctionDef, ast.AsyncFunctionDef, ast.ClassDef))) for m, t in sorted(trees.items())}
 json.dump(inv, open(os.path.join(os.path.dirname(os.path.dirname(os.path.abspath(__file__))), "sa", "inventory.json"), "w"), indent=0)
 print(len(inv["functions"]), "functions,", sum(len(v) for v in inv["attrs"].values()), "attributes in", len(inv["attrs"]), "classes")
